@@ -68,12 +68,12 @@ func (r *Report) decide(okay bool, rule, key, pos, okDetail, badDetail string) b
 	return okay
 }
 
-func (r *Report) rule(text string)        { r.Rules = append(r.Rules, text) }
-func (r *Report) notCovered(text string)  { r.NotCovered = append(r.NotCovered, text) }
-func (r *Report) assume(text string)      { r.Assumptions = append(r.Assumptions, text) }
-func (r *Report) note(text string)        { r.Notes = append(r.Notes, text) }
+func (r *Report) rule(text string)         { r.Rules = append(r.Rules, text) }
+func (r *Report) notCovered(text string)   { r.NotCovered = append(r.NotCovered, text) }
+func (r *Report) assume(text string)       { r.Assumptions = append(r.Assumptions, text) }
+func (r *Report) note(text string)         { r.Notes = append(r.Notes, text) }
 func (r *Report) count(what string, n int) { r.counters[what] += n }
-func (r *Report) fn(name string)          { r.Functions[name] = true }
+func (r *Report) fn(name string)           { r.Functions[name] = true }
 
 // fail marks the checker itself as broken for this run (unresolved anchor,
 // vacuous rule, internal inconsistency). This is not a property violation.
